@@ -167,6 +167,7 @@ def run(ctx: Ctx) -> None:
         first = (node.node.args.posonlyargs + node.node.args.args)
         first = first[1].arg if node.node.name == "__new__" and len(first) > 1 else (first[0].arg if first else None)
         admitted: set[str] = set()
+        seen_consts: set[str] = set()
         for c2 in calls_in(node.node):
             if dotted(c2.func) == "isinstance" and len(c2.args) == 2 and isinstance(c2.args[0], ast.Name) and c2.args[0].id == first:
                 todo = [c2.args[1]]
@@ -176,6 +177,9 @@ def run(ctx: Ctx) -> None:
                         todo += [t.left, t.right]
                     elif isinstance(t, ast.Tuple):
                         todo += t.elts
+                    elif isinstance(t, ast.Name) and idx.module_constant(mock_mod.name, t.id) is not None and t.id not in seen_consts:
+                        seen_consts.add(t.id)  # a module-level constant naming the classes
+                        todo.append(idx.module_constant(mock_mod.name, t.id))
                     else:
                         admitted.add(dotted(t).rsplit(".", 1)[-1])
         mock_admits[bname] = (admitted, node)
